@@ -33,7 +33,10 @@ StepEnc(e, sec, rx) ==
                            <<e.ulAfter = sec.ul /\ e.dlAfter = sec.dl, "counters changed by a plain message">> >>),
          sec |-> [sec EXCEPT !.ul = e.ulAfter, !.dl = e.dlAfter], rx |-> rx]
    ELSE LET p == S!Protect(sec, e.plain, e.hdr, e.new, S!DirUp)
-            u == IF Len(e.out) >= 8 THEN S!Unprotect(rx, Parse(e.out), S!DirUp)
+            \* a context taken into use by a message whose header type does not say so (types 1, 2): the receiver knows from the procedure
+            \* that the counters start again
+            rx0 == IF e.new /\ ~S!NewCtxHdr(e.hdr) THEN [rx EXCEPT !.ul = 0] ELSE rx
+            u == IF Len(e.out) >= 8 THEN S!Unprotect(rx0, Parse(e.out), S!DirUp)
                  ELSE [macOk |-> FALSE, plain |-> <<>>, count |-> -1, sec |-> rx]
             nsec == [p.sec EXCEPT !.ul = e.ulAfter, !.dl = e.dlAfter]
         IN [r |-> FirstBad(<<
